@@ -11,5 +11,6 @@ def make_check():
     return beacon.BeaconCheck(
         "C01", lambda r: r["kind"] == "trans" and beacon.spec_accepts(r), beacon.judge_plain,
         rule="every `trans` record on which the Spec accepts the block: zrnt's verdict and post-state bytes vs the Spec's. distinct = (chain, record); non-trivial = all (every block carries at least randao/eth1 processing; operation mix in generator_distribution)",
-        make_targets=["Properties/C01.vo", "Beacon/Run.vo"], trust=beacon.BEACON_TRUST,
+        make_targets=["Properties/C01.vo", "Beacon/Run.vo", "Beacon/Refine/BlockImplRun.vo"], trust=beacon.BEACON_TRUST,
+        extra_streams=["C01IMPL"],
         model_files=["coq/Beacon/Spec/*.v", "coq/Beacon/Run.v", "coq/Beacon/Proofs/TransitionRules.v", "coq/Properties/C01.v"])
